@@ -5,6 +5,7 @@ import (
 	"math/rand/v2"
 	"os"
 	"os/exec"
+	"path/filepath"
 	"sort"
 	"strings"
 
@@ -59,11 +60,28 @@ func runC09(r *ev.Run) {
 	n := r.Pick(60, 1500)
 	r.CasesParallel("sessions", n, 8, func(ci int, rng *rand.Rand) {
 		p := genStoreParams(rng, []string{"flat", "flat", "hnsw", "ivf", ""})
-		dir, err := os.MkdirTemp("", "verif-c09-*")
+		tmp, err := os.MkdirTemp("", "verif-c09-*")
 		if err != nil {
 			panic(err)
 		}
-		defer os.RemoveAll(dir)
+		defer os.RemoveAll(tmp)
+		// the store directory itself carries a name a user might well choose: glob / regexp metacharacters, blanks,
+		// non-ASCII, a leading dash; every Open also spells it a little differently (trailing slash, "/.", "x/..")
+		dir := filepath.Join(tmp, []string{"store", "tenant[7]", "a b", "dätä-目录", "-dash", "100%_{x}", "star*q?", "dots..bin.gz"}[rng.IntN(8)])
+		if err := os.Mkdir(dir, 0o755); err != nil {
+			panic(err)
+		}
+		spell := func() string {
+			switch rng.IntN(4) {
+			case 0:
+				return dir + "/"
+			case 1:
+				return dir + "/."
+			case 2:
+				return filepath.Dir(dir) + "/./" + filepath.Base(dir)
+			}
+			return dir
+		}
 		var log []string
 		dead := false
 		rep := func(sig, what string) {
@@ -163,7 +181,7 @@ func runC09(r *ev.Run) {
 			}
 		}
 		for sess := 0; sess < nSessions && !dead; sess++ {
-			s, err := p.open(dir)
+			s, err := p.open(spell())
 			if err != nil {
 				rep("store.open-error", fmt.Sprintf("session %d: %v", sess, err))
 				return
@@ -334,7 +352,7 @@ func runC09(r *ev.Run) {
 			return
 		}
 		// final reopen with fresh templates; search twice (a segment load must not clobber anything)
-		s, err := p.open(dir)
+		s, err := p.open(spell())
 		if err != nil {
 			rep("store.open-error", fmt.Sprintf("final reopen: %v", err))
 			return
